@@ -387,6 +387,19 @@ def real_stream(ctx, mods):
         src_eas(ctx, beta, alt, E, np.arange(n, dtype=np.float64), np.zeros(n), p["area"], p["qe"], p["thr"], kd, kt, pe, cos)
         ctx.count("real.kernel_calls", len(calls))
         ctx.traces += 1
+    # ---- what the calling program logs is inert: the same batch with DEBUG logging switched on (in-process kernel, so the
+    # library's loggers see the level), at the reference orbit and at two other detector altitudes
+    import logmode
+    for name in ("base", "det_balloon", "det_high"):
+        p = {**base, **variants[name]}
+        cfg_l = make_cfg(nss, Detector, p["alt"], p["area"], p["qe"], p["thr"])
+        k_l = min(n, 14)
+
+        def call_logged(cfg_l=cfg_l, k_l=k_l):
+            pe_, cos_, kd_, kt_, _asked, _calls = run_real(mods, cfg_l, beta[:k_l].copy(), alt[:k_l].copy(), E[:k_l].copy())
+            return pe_, cos_, kd_, kt_
+        logmode.check(ctx, "EAS.__call__", call_logged, {"variant": name, "detector_altitude_km": float(p["alt"]), "events": k_l,
+                                                          "beta": beta[:k_l].tolist(), "altDec": alt[:k_l].tolist(), "E_100PeV": E[:k_l].tolist()})
     # ---- a batch whose events are ALL out of range: the real kernel must not simulate anything
     m = 12
     alt_out = np.where(np.arange(m) % 2 == 0, rng.uniform(-10.0, -1e-9, m), rng.uniform(20.000001, 500.0, m))
